@@ -159,13 +159,16 @@ theorem hole_walk (j : Json) :
     cleanJ false (redJ false j) = true ∧ (cleanJ false j = true → redJ false j = j) ∧ redJ false (redJ false j) = redJ false j :=
   ⟨redJ_clean false j, redJ_of_clean false j, redJ_idem false j⟩
 
-/-- **reachable**: after any sequence of runtime updates (`SetMosnConfig`, listener / cluster / host / router /
-extend / cluster-manager-TLS updates, persisting dumps, reset) the invariant holds, so `no_key` and `holes` apply to
-every history. -/
-theorem no_key_history (ops : List Op) (hwt : wt G (.named "effectiveConfig") (run ops).toVal = true)
+/-- **history**: after any sequence of runtime updates (`SetMosnConfig`, listener / cluster / host / router / extend /
+cluster-manager-TLS updates, cluster removal, persisting dumps, reset) whose arguments are values of the Go types the
+configmanager API takes, every dump entry point is free of private keys, in typed positions and in holes alike: the
+effective config stays a value of the regenerated graph (`run_wt`) and keeps the invariant the redactor relies on
+(`respects_run`). -/
+theorem no_key_history (ops : List Op) (hops : ∀ op ∈ ops, op.wtArg = true)
     (q : Query) (out : Val) (h : dumpOut (run ops) q = some out) :
     clean G true false fiTop out = true ∧ clean G false true fiTop out = true :=
-  ⟨dump_clean true false _ hwt (respects_run ops) q out h, dump_clean false true _ hwt (respects_run ops) q out h⟩
+  ⟨dump_clean true false _ (run_wt ops hops) (respects_run ops) q out h,
+   dump_clean false true _ (run_wt ops hops) (respects_run ops) q out h⟩
 
 /-- **frame**: no dump entry point writes a cell shared with the live configuration — for every state, whether or
 not it satisfies the invariant, and every query. -/
@@ -241,7 +244,7 @@ private def exOps : List Op :=
 
 /-- the hypotheses of `no_key_history` are satisfiable by a state with keys at every kind of position, the dump is
 produced, and it really differs from the live value (keys were replaced) -/
-example : wt G (.named "effectiveConfig") (run exOps).toVal = true := by decide +kernel
+example : exOps.all Op.wtArg = true := by decide +kernel
 example : (dumpOut (run exOps) .full).isSome = true ∧ (dumpOut (run exOps) (.param "listener" "l1")).isSome = true ∧
     (dumpOut (run exOps) (.param "nosuch" "")).isNone = true := by decide +kernel
 example : clean G true true fiTop (run exOps).toVal = false := by decide +kernel
